@@ -17,6 +17,8 @@ EXPLANATION = (
     "GUARD: no hard-coded qudit dimension: the zero density matrix accumulated in the stochastic branch of QutipBackendV2.run is sized from the emulator's dimension, not a literal; both branches of run() call every "
     "observable with the same keyword set; Results._store_raw rejects a repeated time and requires ascending times; default observables read their operands from the state/hamiltonian they are given "
     "(Energy: hamiltonian.expect(state); second moment: (hamiltonian @ hamiltonian).expect(state); variance = second moment - energy**2). "
+    "The time-matching tolerance is c/total_duration with 0 < c <= 0.5 (half a step: two consecutive solver times never match one requested time). QutipState.probabilities squares ket amplitudes and does not square "
+    "the diagonal of a density matrix; QutipOperator.expect returns qutip.expect(op, state) whole (no real/imaginary/absolute part: operators need not be Hermitian). "
     "NOT decided: the numeric values of the observables (runtime)."
 )
 ASSUMPTIONS = ["the truth table is evaluated over the three atoms of the path condition of the storing call, read off the symbolic normal form (pstatic/sym.py)"]
